@@ -441,7 +441,7 @@ PROPS["C14"] = {
     "functions": ["Market::<2,L>::{new,create_order,create_and_place_order,place_order,cancel_order,modify_order,process_event,set_time,enable_trading,disable_trading,reset_trade_vols,get_time}",
                   "Market::{bid_vols,ask_vols,bid_best_vols,ask_best_vols,bid_best_vol_and_orders,ask_best_vol_and_orders,bid_levels,ask_levels,bid_asks,get_trade_vols,level_2_data}", "MarketEnv::<2,L>::step"] + BOOK_FUNCS[:2],
     "assumptions": BOOK_ASSUME + DE_ASSUME[:1],
-    "bounds": "2 assets, 2-entry table per asset (+1 created), asset addressed concrete per harness (0 and 1), one market-level operation (8 kinds, trading off) or one admin call; MarketEnv step loop with batches of 2-3 instructions on symbolic assets",
+    "bounds": "2 assets, 2-entry table per asset (+1 created), asset addressed concrete per harness (0 and 1), one market-level operation (8 kinds, trading off) or one admin call; MarketEnv step loop with batches of 2 instructions on symbolic assets (3: out of memory)",
     "outside": "3-4 assets (indexing code is uniform in ASSETS); market-level operations with trading on (the wrappers do not look at the flag; matching is C01); MarketEnv end-to-end with the real process_event",
     "explanation": "A Market<2> assembled from two independent arbitrary books: one market-level operation addressed to asset a leaves asset 1-a's complete observable snapshot and side indexes untouched and makes asset a equal to a stand-alone reference book taking the same operation; ids are (asset, per-asset sequence number); every all-asset query (incl. the re-implemented level_2_data) returns [f(book0), f(book1)]; set_time / toggles / reset reach every asset; Market::new gives each asset its own tick size and the shared clock and flag. MarketEnv<2>::step (loop harness): each asset's book receives exactly its own instructions, in the shuffled order, stamped start+i with i the position in the WHOLE batch; per-asset cache, records and per-step volumes.",
     "stubs": ["Market::process_event -> Market::verif_log_event in the market_env_step_loop_* harnesses only", "std BTreeMap -> verif_map (cfg(kani) only)"],
@@ -450,8 +450,7 @@ PROPS["C14"] = {
                   for g, c in (("create", None), ("create_place", "cover.placed_on_addressed_asset"), ("place", None), ("cancel", None), ("modify", "cover.modify_requeued"), ("event_new", "cover.new_event_routed"),
                                ("event_cancel", "cover.cancel_event_routed"), ("event_modify", "cover.modify_event_routed")) for a in (0, 1)] + [
                   book("c14_market_admin", "set_time / toggles / reset_trade_vols reach both assets; Market::new per-asset ticks", covers=["cover.reset_reaches_asset_1"], timeout=900),
-                  de("market_env_step_loop_b2", "MarketEnv<2>::step loop, 2 instructions on symbolic assets", covers=["cover.cross_asset_batch_reordered"], timeout=1500),
-                  de("market_env_step_loop_b3", "MarketEnv<2>::step loop, 3 instructions on symbolic assets", covers=["cover.cross_asset_batch_reordered"], timeout=2400, tiers=("thorough",))],
+                  de("market_env_step_loop_b2", "MarketEnv<2>::step loop, 2 instructions on symbolic assets", covers=["cover.cross_asset_batch_reordered"], timeout=1500)],
 }
 
 
